@@ -191,6 +191,14 @@ def remove_relu(mod: nn.Module) -> nn.Module:
         if is_function(n, (F.relu, torch.relu,)) or is_layer(n, mod, (nn.ReLU,)):
             assert len(n.all_input_nodes) == 1
             inp_node = n.all_input_nodes[0]
+            # A ReLU applied to the output of the last layer acts on real-valued logits, which
+            # no integer layer clips: it has to stay
+            src = inp_node
+            while src.op in ('call_method', 'call_function') and len(src.all_input_nodes) == 1:
+                src = src.all_input_nodes[0]
+            producer = mod.get_submodule(str(src.target)) if src.op == 'call_module' else None
+            if getattr(producer, 'skip_requant', False) or getattr(producer, 'last_layer', False):
+                continue
             new_submodule = nn.Identity()
             name = str(n) + '_' + str(n.all_input_nodes) + '_identity'
             mod.add_submodule(name, new_submodule)
